@@ -214,6 +214,9 @@ class State:
         self.heap[name] = z3.Store(self.field(name), ref, val)
 
     def new_ref(self, prefix='obj'):
+        if self.bound and not getattr(self, 'alloc_under_binder_ok', False):
+            # one reference would stand for the objects of ALL instances of the bound variable (aliasing)
+            raise Unsupported('allocation of an object under a quantifier / comprehension binder')
         r = fresh_int(prefix)
         self.assume(r >= self.alloc)
         self.alloc = r + 1
@@ -222,7 +225,14 @@ class State:
 
     # -- lists ----------------------------------------------------------------
     def list_len(self, lv: V):
-        return self.read(as_ref(lv), '$len')
+        n = self.read(as_ref(lv), '$len')
+        if not z3.is_int_value(n) and not self.bound:
+            # the length of a Python container is never negative (also after a havoc, and for results of callees)
+            key = ('len>=0', n.get_id())
+            if key not in self._typed:
+                self._typed.add(key)
+                self.pc.append(n >= 0)
+        return n
 
     def list_elems(self, lv: V):
         return self.read(as_ref(lv), '$elems')
